@@ -18,7 +18,8 @@ Modes (input.mode):
   decstress concurrent Decode calls (long overlapping block histories; outcomes): sequential answers, no crash.
 In valid / violate / lenient mode the same bytes are decoded again after the first result has been
 overwritten (`impl.again`, `impl.back` = the model's answer) and under a second (utg, wg) pair
-(`impl.alt` = the model's answer under `altUtg` / `altWg`).
+(`impl.alt` = the model's answer under `altUtg` / `altWg`).  Cases with `input.pad` are decoded once
+more with insignificant white space added up to that size; `impl.ws` must be empty (same answer).
 In valid / violate mode the harness keeps the first encoding while a second message of the
 same length is encoded and reports in `impl.alias` if the kept bytes (or, after the input
 buffer has been overwritten, the decoded value) changed.
@@ -248,7 +249,11 @@ def handleK {α} [DecidableEq α] (ops : Ops α) (input impl : Json) : R Reply :
   let oob := oobText != ""
   let aliasText := match fieldD impl "alias" .null with | .str s => s | _ => ""
   let alias := aliasText != ""
+  let wsText := match fieldD impl "ws" .null with | .str s => s | _ => ""
+  let ws := wsText != ""
+  let padded := match fieldD input "pad" .null with | .num n => decide (n.mantissa > 0) | _ => false
   let crashTags :=
+    (if ws then ["ws-dependent"] else []) ++ (if padded then [s!"{kind}:padded"] else []) ++
     (if alias then ["aliasing"] else []) ++
     (if oob then ["oob-zero-fill"] else []) ++
     (match ia with
@@ -267,13 +272,15 @@ def handleK {α} [DecidableEq α] (ops : Ops α) (input impl : Json) : R Reply :
     let ma2 := answerOf (ops.decode c (altUtg utg) (altWg wg) tree)
     let (rAgree, rSpec, rFail, rTags) ← checkRepeats ops impl ia ma ma2 (specRoundTrip x)
       (specArbitrary (ops.validate (altUtg utg) (altWg wg)))
-    let si := specRoundTrip x ia && specRetained alias && rSpec
+    let si := specRoundTrip x ia && specRetained alias && rSpec && specWhitespace ws
     let agree := decide (ma = ia) && treeEq && rAgree
     pure { agree := agree, specModel := sm, specImpl := si,
            diff := if agree then "" else
              (if treeEq then "" else "toJson(value) differs from the tree of the Go bytes; ") ++
              s!"model={answerStr ma} impl={answerStr ia}",
-           fail := if si then "" else if !rSpec then rFail ++ (if alias then ": " ++ aliasText else "")
+           fail := if si then "" else if !specRoundTrip x ia then explainRoundTrip ia
+                   else if ws then explainWs ++ ": " ++ wsText
+                   else if !rSpec then rFail ++ (if alias then ": " ++ aliasText else "")
                    else if alias then explainAlias ++ ": " ++ aliasText else explainRoundTrip ia,
            nontrivial := decide (ops.size x ≥ 1),
            tags := [s!"{kind}:valid"] ++ (ops.shape x).map (fun s => s!"{kind}:{s}") ++
@@ -289,11 +296,13 @@ def handleK {α} [DecidableEq α] (ops : Ops α) (input impl : Json) : R Reply :
     let ma2 := answerOf (ops.decode c (altUtg utg) (altWg wg) tree)
     let (rAgree, rSpec, rFail, rTags) ← checkRepeats ops impl ia ma ma2 specRejected
       (specArbitrary (ops.validate (altUtg utg) (altWg wg)))
-    let si := specRejected ia && specRetained alias && rSpec
+    let si := specRejected ia && specRetained alias && rSpec && specWhitespace ws
     let agree := decide (ma = ia) && answerStr ma == want && treeEq && rAgree
     pure { agree := agree, specModel := sm, specImpl := si,
            diff := if agree then "" else s!"rule broken={want} model={answerStr ma} impl={answerStr ia} treeEq={treeEq}",
-           fail := if si then "" else if !rSpec then rFail ++ s!" (rule {want})"
+           fail := if si then "" else if !specRejected ia then explainRejected ia ++ s!" (rule {want})"
+                   else if ws then explainWs ++ ": " ++ wsText
+                   else if !rSpec then rFail ++ s!" (rule {want})"
                    else if alias then explainAlias ++ ": " ++ aliasText else explainRejected ia ++ s!" (rule {want})",
            nontrivial := true,
            tags := [s!"{kind}:violate", s!"{kind}:rule:{want}"] ++
@@ -308,12 +317,13 @@ def handleK {α} [DecidableEq α] (ops : Ops α) (input impl : Json) : R Reply :
     let ma2 := answerOf (ops.decode c (altUtg utg) (altWg wg) tree)
     let (rAgree, rSpec, rFail, rTags) ← checkRepeats ops impl ia ma ma2 (specArbitrary (ops.validate utg wg))
       (specArbitrary (ops.validate (altUtg utg) (altWg wg)))
-    let si := specArbitrary (ops.validate utg wg) ia && specNoCrash ia oob && rSpec && specRetained alias
+    let si := specArbitrary (ops.validate utg wg) ia && specNoCrash ia oob && rSpec && specRetained alias && specWhitespace ws
     let agree := decide (mu = iu) && decide (ma = ia) && rAgree
     pure { agree := agree, specModel := sm, specImpl := si,
            diff := if agree then "" else
              s!"unmarshal model={mu.isSome} impl={iu.isSome} equal={decide (mu = iu)}; answer model={answerStr ma} impl={answerStr ia}",
            fail := if si then "" else if oob then explainOob ++ ": " ++ oobText
+                   else if ws then explainWs ++ ": " ++ wsText
                    else if !rSpec then rFail else if alias then explainRepeat ++ ": " ++ aliasText else explainArbitrary ia,
            nontrivial := true,
            tags := [s!"{kind}:lenient", s!"{kind}:lenient:{answerStr ia}"] ++ rTags.map (fun t => s!"{kind}:lenient:{t}") ++ crashTags }
@@ -339,7 +349,7 @@ def handleK {α} [DecidableEq α] (ops : Ops α) (input impl : Json) : R Reply :
            nontrivial := true,
            tags := [s!"{kind}:gcstress"] ++ crashTags }
   | "malformed" =>
-    let si := specArbitrary (ops.validate utg wg) ia && specNoCrash ia oob && specRetained alias
+    let si := specArbitrary (ops.validate utg wg) ia && specNoCrash ia oob && specRetained alias && specWhitespace ws
     let cls := match ia with
       | .accepted _ => "accepted"
       | .malformed => "malformed"
@@ -347,6 +357,7 @@ def handleK {α} [DecidableEq α] (ops : Ops α) (input impl : Json) : R Reply :
       | .panicked => "panic"
     pure { agree := true, specModel := true, specImpl := si,
            fail := if si then "" else if oob then explainOob ++ ": " ++ oobText
+                   else if ws then explainWs ++ ": " ++ wsText
                    else if alias then explainRepeat ++ ": " ++ aliasText else explainArbitrary ia,
            nontrivial := cls != "malformed",
            tags := [s!"{kind}:arbitrary:{cls}"] ++ crashTags }
